@@ -192,7 +192,10 @@ def load_known():
 
 
 class Run:
+    live = []
+
     def __init__(self, pid: str, tier: str, level: str = "model_checking"):
+        Run.live.append(self)
         self.pid = pid
         self.tier = tier
         self.level = level
@@ -308,5 +311,7 @@ def main_wrap(fn):
         rc = fn()
     except MachineryError as e:
         print("MACHINERY-FAILURE:", e, file=sys.stderr)
+        for r in list(Run.live):        # scratch directories of runs that never reached finish()
+            shutil.rmtree(r.workdir, ignore_errors=True)
         sys.exit(2)
     sys.exit(rc)
